@@ -70,8 +70,8 @@ def segwit_decoder(ex, K):
 @ob("C06", "base58_payload_roundtrip", quick=[dict(L=l) for l in range(0, 3)], thorough=[dict(L=l) for l in range(0, 4)],
     bound="payload of L symbolic bytes, L = 0..2 (thorough 0..3), leading zero bytes included: _b58decode(_b58encode(v)) == v",
     functions=["btclib.base58._b58encode", "btclib.base58._b58decode"], timeout=900, weight=3,
-    outside=["Base58 payloads above 3 bytes and Base58Check with a symbolic payload: re-basing a symbolic integer between 256 and 58 is out of reach "
-             "of both the bit-vector and the integer back end from 32 bits up (unknown at 40 s per query)"])
+    outside=["byte-level round trips of payloads above 3 bytes (the digit count and the byte count both depend on the magnitude: a 25-byte and even an 8-byte payload did not finish in 15 min); "
+             "the long case is decided digit-wise instead: base58_decoded_integer_is_the_positional_value and base58_encoder_writes_the_digits_of_its_integer", "Base58Check's checksum (a hash)"])
 def base58_payload(ex, L):
     v = ex.bytes("v", L)
     enc = base58._b58encode(v)
@@ -158,3 +158,57 @@ def segwit_non_ascii(ex, cp, K):
     except BTClibValueError:
         return ex.refuse("BTClibValueError")
     return {"non_ascii_string_refused": False}
+
+
+# ------------------------------------------------------------------ Base58 of long strings: the positional value, digit by digit (linear in the digits)
+_B58 = b"123456789ABCDEFGHJKLMNPQRSTUVWXYZabcdefghijkmnopqrstuvwxyz"
+
+
+@ob("C06", "base58_decoded_integer_is_the_positional_value", quick=[dict(L=l) for l in (1, 9, 10, 11, 20, 21, 30, 34, 51, 52, 111, 112)], thorough=[dict(L=l) for l in (1, 9, 10, 11, 19, 20, 21, 29, 30, 31, 34, 40, 51, 52, 111, 112)],
+    bound="strings of L base58 characters (every digit symbolic over 0..57, any leading digit): _b58decode_to_int is the sum of digit * 58^position -- a linear fact about the digits, decided over "
+          "the integers; L spans the chunk boundaries of the decoder (10, 20, 30) and the lengths of addresses (34), WIFs (51, 52) and extended keys (111, 112)",
+    functions=["btclib.base58._b58decode_to_int"], min_ok=1, timeout=600)
+def base58_positional(ex, L):
+    ex.prefer_int()
+    digits = [ex.int(f"d{i:03d}", 0, 57) for i in range(L)]
+    if ex.concrete:
+        text = bytes(_B58[d] for d in digits)
+    else:
+        from sx.seq import mk_bytes
+        text = mk_bytes([_B58[d] for d in digits])
+    got = base58._b58decode_to_int(text)
+    want = 0
+    for d in digits:
+        want = want * 58 + d
+    return {"positional_value": got == want}
+
+
+
+@ob("C06", "base58_encoder_writes_the_digits_of_its_integer", quick=[dict(L=l) for l in (1, 2, 10, 11, 21, 34)], thorough=[dict(L=l) for l in (1, 2, 9, 10, 11, 20, 21, 30, 31, 34, 51, 52)],
+    bound="every integer with exactly L base58 digits (58^(L-1) <= i < 58^L, symbolic; L = 1 includes 0): _b58encode_from_int writes L characters of the alphabet, no leading '1', "
+          "whose positional value is i (quotients and remainders by 58 and 58^10 as integer division witnesses)",
+    functions=["btclib.base58._b58encode_from_int"], min_ok=1, timeout=600)
+def base58_encoder(ex, L):
+    ex.prefer_int()
+    lo = 0 if L == 1 else 58 ** (L - 1)
+    i = ex.int("i", lo, 58 ** L - 1)
+    text = base58._b58encode_from_int(i)
+    idx = [_B58.find(bytes([c])) if type(c) is int else None for c in text] if ex.concrete else None
+    claims = {"length_is_the_digit_count": len(text) == L}
+    if len(text) != L:
+        return claims
+    # digit value of every character, through the library-independent alphabet table
+    inv = [255] * 256
+    for k, ch in enumerate(_B58):
+        inv[ch] = k
+    value = 0
+    ok = True
+    for c in text:
+        d = inv[c]
+        ok = sand(ok, d != 255)
+        value = value * 58 + d
+    claims["characters_are_of_the_alphabet"] = ok
+    claims["positional_value_is_the_integer"] = value == i
+    claims["no_leading_zero_digit"] = sor(L == 1, inv[text[0]] != 0)
+    return claims
+
